@@ -19,6 +19,7 @@ import (
 	"time"
 
 	"verif/drv"
+	"verif/sim"
 )
 
 // Out is what executing one plan produced.
@@ -70,6 +71,11 @@ var registry = map[string]*Check{}
 func Register(c *Check) {
 	if c.RunTimeout == 0 {
 		c.RunTimeout = 60 * time.Second
+	}
+	if sim.RaceBuild && !c.Race {
+		// a check whose time limits were sized for the plain build, run under
+		// the race detector (C10 thorough): the detector costs up to 10x
+		c.RunTimeout *= 8
 	}
 	registry[c.ID] = c
 }
